@@ -1,31 +1,283 @@
 """props/C14.py — descriptor for property C14 (factored objects = flat expansion)."""
-REPO_SRCS = ["src/Factored/Utils/Core.cpp"]
+REPO_SRCS = ["src/Factored/Utils/Core.cpp", "src/Factored/Utils/FactoredVectorOps.cpp", "src/Factored/Utils/FactoredMatrix.cpp",
+             "src/Factored/Utils/BayesianNetwork.cpp"]
 AXIOM_ALLOW = []
-TRUSTED_BASE = ["size_t modelled as unbounded nat (no wrap-around in the modelled range)"]
-ASSUMPTIONS = ["factor spaces small enough that indices do not overflow size_t"]
+TRUSTED_BASE = ["size_t modelled as unbounded nat (no wrap-around in the modelled range)",
+                "Eigen vectors/matrices modelled as lists of exact rationals; unchecked reads default to 0 in the model "
+                "(theorems carry the well-formedness hypotheses that keep every read in range)",
+                "minusEqual is modelled as repaired by fixes/C14-minusEqual.patch (the unrepaired code is minusEqual_orig)",
+                "std::move / rvalue overloads modelled as their const& twins"]
+ASSUMPTIONS = ["factor spaces small enough that indices do not overflow size_t",
+               "all factor sizes positive; tags non-empty, in range (sorted where the C++ requires it)",
+               "operator*=(Vector) with a constant term needs at least one basis",
+               "DDN: one parent set per state factor, the action selects an existing parent set, rows of the "
+               "conditional tables used are probability distributions"]
+RULE = ("random factor spaces (1..5 factors of sizes 1..5, size-1 factors included), random sorted key subsets, "
+        "all PartialFactorsEnumerator constructors (plain, all, skip present/missing, skip-all), PartialIndexEnumerator, "
+        "merge/match/removeFactor/checkTag on random (also invalid, for checkTag) tags; factored vectors with 0..3 bases "
+        "of random overlapping tags (subset / superset / equal / unrelated to the operand's) and dyadic values k/4, all "
+        "plus/minus/dot/plusEqual/minusEqual/scale/weights overloads, flat value compared at EVERY joint assignment; "
+        "random DDNs (1..3 state factors, 1..2 agents, a different parent set per action value, dyadic CPT rows), "
+        "getId/getIds both ways, transition probabilities for all next states, backProject against the exact "
+        "expectation; invalid parent sets for push; non-trivial = more than one key / more than one visited element / "
+        "a non-default branch taken / more than one basis or factor")
 
 def L(xs): return "%d %s" % (len(xs), " ".join(map(str, xs))) if xs else "0"
 
-def gen(rng, tier):
-    n = {"quick": 400, "thorough": 4000, "search": 1500}[tier]
-    out = []
-    for _ in range(n):
-        nf = rng.choice([1, 2, 2, 3, 3, 4, 5])
-        space = [rng.choice([1, 2, 2, 3, 4, 5]) for _ in range(nf)]
-        tot = 1
-        for s in space: tot *= s
-        f = [rng.randrange(s) for s in space]
-        k = rng.randint(1, nf)
-        keys = sorted(rng.sample(range(nf), k))
-        sub = 1
-        for kk in keys: sub *= space[kk]
-        kind = rng.choice(["idx", "fac", "pidx", "pfac"])
-        if kind == "idx":
-            out.append("idx %s %d" % (L(space), rng.choice([0, tot - 1, rng.randrange(tot)])))
-        elif kind == "fac":
-            out.append("fac %s %s" % (L(space), L(f)))
-        elif kind == "pidx":
-            out.append("pidx %s %s %d" % (L(space), L(keys), rng.choice([0, sub - 1, rng.randrange(sub)])))
+def rspace(rng, lo=1):
+    nf = rng.choice([1, 2, 2, 3, 3, 4, 5])
+    return [rng.choice([lo, 2, 2, 3, 4, 5]) for _ in range(nf)]
+
+def rkeys(rng, nf, kmin=1):
+    k = rng.randint(kmin, nf)
+    return sorted(rng.sample(range(nf), k))
+
+def prod(xs):
+    t = 1
+    for x in xs: t *= x
+    return t
+
+def match_oob(bk, sk):
+    """does Core.cpp:match read bigger[i] past its end?"""
+    i = j = 0
+    while j < len(sk):
+        if i >= len(bk): return True
+        if bk[i] < sk[j]: i += 1
+        elif bk[i] > sk[j]: j += 1
+        else: i += 1; j += 1
+    return False
+
+def gen_core(rng, kind):
+    space = rspace(rng)
+    nf = len(space)
+    tot = prod(space)
+    f = [rng.randrange(s) for s in space]
+    keys = rkeys(rng, nf)
+    sub = prod(space[k] for k in keys)
+    if kind == "idx":
+        return "idx %s %d" % (L(space), rng.choice([0, tot - 1, rng.randrange(tot)]))
+    if kind == "fac":
+        return "fac %s %s" % (L(space), L(f))
+    if kind == "pidx":
+        return "pidx %s %s %d" % (L(space), L(keys), rng.choice([0, sub - 1, rng.randrange(sub)]))
+    if kind == "pfac":
+        return "pfac %s %s %s" % (L(space), L(keys), L(f))
+    if kind == "enum":
+        if rng.random() < 0.05: keys = []
+        return "enum %s %s" % (L(space), L(keys))
+    if kind == "enumall":
+        return "enumall %s" % L(space)
+    if kind == "enumskip":
+        if rng.random() < 0.5:
+            skip = rng.choice(keys)
+            return "enumskip %s %s %d 0" % (L(space), L(keys), skip)
+        others = [k for k in range(nf) if k not in keys]
+        if not others:
+            keys = keys[:-1] if len(keys) > 1 else []
+            others = [k for k in range(nf) if k not in keys]
+        skip = rng.choice(others)
+        return "enumskip %s %s %d 1" % (L(space), L(keys), skip)
+    if kind == "enumskipall":
+        return "enumskipall %s %d" % (L(space), rng.randrange(nf + (1 if rng.random() < 0.1 else 0)))
+    if kind == "ienum":
+        if rng.random() < 0.5:
+            fixed = rng.choice(keys)
+            return "ienum %s %s %d %d 0" % (L(space), L(keys), fixed, rng.randrange(space[fixed]))
+        others = [k for k in range(nf) if k not in keys]
+        if not others:
+            keys = keys[:-1] if len(keys) > 1 else []
+            others = [k for k in range(nf) if k not in keys]
+        fixed = rng.choice(others)
+        return "ienum %s %s %d %d 1" % (L(space), L(keys), fixed, rng.randrange(space[fixed]))
+    if kind == "ienumall":
+        fixed = rng.randrange(nf)
+        return "ienumall %s %d %d" % (L(space), fixed, rng.randrange(space[fixed]))
+    if kind in ("merge", "match", "matchp"):
+        n = rng.randint(2, 7)
+        lk = sorted(rng.sample(range(n), rng.randint(0 if kind == "merge" else 1, n)))
+        rk = sorted(rng.sample(range(n), rng.randint(0 if kind == "merge" else 1, n)))
+        agree = rng.random() < 0.6
+        full = [rng.randrange(3) for _ in range(n)]
+        lv = [full[k] for k in lk]
+        rv = [full[k] if agree or rng.random() < 0.7 else (full[k] + 1) % 3 for k in rk]
+        if kind == "merge":
+            return "merge %s %s %s %s" % (L(lk), L(lv), L(rk), L(rv))
+        if kind == "matchp":
+            full2 = [x if rng.random() < 0.8 else (x + 1) % 3 for x in full]
+            return "matchp %s %s %s %s" % (L(lk), L(rk), L(lv), L([full2[k] for k in rk]))
+        bk, sk = (lk, rk) if len(lk) > len(rk) else (rk, lk)
+        if match_oob(bk, sk):
+            return None
+        return "match %s %s %s %s" % (L(lk), L(lv), L(rk), L(rv))
+    if kind == "rmf":
+        vals = [f[k] for k in keys]
+        return "rmf %s %s %d" % (L(keys), L(vals), rng.randrange(nf + 1))
+    if kind == "matchf":
+        vals = [f[k] if rng.random() < 0.8 else (f[k] + 1) % 7 for k in keys]
+        return "matchf %s %s %s" % (L(f), L(keys), L(vals))
+    if kind == "matchk":
+        g = [x if rng.random() < 0.8 else x + 1 for x in f]
+        return "matchk %s %s %s" % (L(keys), L(f), L(g))
+    if kind == "chk":
+        r = rng.random()
+        tag = list(keys)
+        if r < 0.15: tag = []
+        elif r < 0.3: tag[rng.randrange(len(tag))] = nf + rng.randrange(2)
+        elif r < 0.45 and len(tag) > 1: rng.shuffle(tag)
+        elif r < 0.6: tag.insert(rng.randrange(len(tag) + 1), rng.choice(tag))
+        elif r < 0.65: tag = tag + [rng.randrange(nf) for _ in range(nf)]
+        return "chk %s %s" % (L(space), L(tag))
+    if kind == "kpf":
+        pk = keys
+        pv = [f[k] for k in pk]
+        ids = sorted(rng.sample(pk, rng.randint(1, len(pk))))
+        return "kpf %s %s %s %s" % (L(ids), L(space), L(pk), L(pv))
+    if kind == "iskip":
+        m = rng.choice(keys) if rng.random() < 0.8 else rng.randrange(nf)
+        return "iskip %s %s %s %d" % (L(keys), L(space), L(f), m)
+    raise ValueError(kind)
+
+
+# ---------------------------------------------------------------- factored vector algebra -----
+def Q(k, d=4):
+    return "%d/%d" % (k, d) if k % d else str(k // d)
+
+def LQ(xs): return "%d %s" % (len(xs), " ".join(xs)) if xs else "0"
+
+def rvals(rng, n, zero=False):
+    return [Q(0 if zero else rng.randint(-8, 8)) for _ in range(n)]
+
+def rbasis(rng, space, tag=None, zero=False):
+    nf = len(space)
+    if tag is None: tag = rkeys(rng, nf)
+    return (tag, rvals(rng, prod(space[k] for k in tag), zero))
+
+def B(b): return "%s %s" % (L(b[0]), LQ(b[1]))
+def FV(fv): return ("%d " % len(fv) + " ".join(B(b) for b in fv)) if fv else "0"
+
+def aspace(rng):
+    nf = rng.choice([1, 2, 2, 3, 3, 4])
+    return [rng.choice([1, 2, 2, 3]) for _ in range(nf)]
+
+def rfv(rng, space, lo=0, hi=3):
+    return [rbasis(rng, space) for _ in range(rng.randint(lo, hi))]
+
+def related_basis(rng, space, fv):
+    """a basis whose tag is often a subset / superset / equal to one in fv"""
+    nf = len(space)
+    if fv and rng.random() < 0.7:
+        t = list(rng.choice(fv)[0])
+        r = rng.random()
+        if r < 0.35 and len(t) > 1:
+            t = sorted(rng.sample(t, rng.randint(1, len(t) - 1)))
+        elif r < 0.7:
+            extra = [k for k in range(nf) if k not in t]
+            if extra: t = sorted(t + rng.sample(extra, rng.randint(1, len(extra))))
+        return rbasis(rng, space, t)
+    return rbasis(rng, space)
+
+def gen_alg(rng, kind):
+    space = aspace(rng)
+    if kind == "bfop":
+        return "bfop %s %s %s %s" % (rng.choice(["plus", "minus", "dot"]), L(space), B(rbasis(rng, space)), B(rbasis(rng, space)))
+    if kind == "subop":
+        big = rbasis(rng, space)
+        t = big[0] if rng.random() < 0.3 else sorted(rng.sample(big[0], rng.randint(1, len(big[0]))))
+        return "subop %s %s %s %s" % (rng.choice(["plus", "minus"]), L(space), B(big), B(rbasis(rng, space, t)))
+    fv = rfv(rng, space)
+    op = rng.choice(["plus", "plus", "plusrv", "plusc", "minus", "minus", "minus", "minusc", "plusfv", "plusfvrv", "minusfv",
+                     "minusfv", "scale", "scalew", "scalew", "getw"])
+    head = "fv %s %s %s" % (op, L(space), FV(fv))
+    if op in ("plus", "plusrv", "plusc"):
+        return "%s %s" % (head, B(related_basis(rng, space, fv)))
+    if op in ("minus", "minusc"):
+        cz = 1 if rng.random() < 0.5 else 0
+        if fv and rng.random() < 0.25:
+            b = rng.choice(fv)          # subtracting a basis from itself: erased when clearZero
         else:
-            out.append("pfac %s %s %s" % (L(space), L(keys), L(f)))
+            b = related_basis(rng, space, fv)
+        return "%s %s %d" % (head, B(b), cz)
+    if op in ("plusfv", "plusfvrv"):
+        return "%s %s" % (head, FV([related_basis(rng, space, fv) for _ in range(rng.randint(0, 3))]))
+    if op == "minusfv":
+        rhs = [related_basis(rng, space, fv) for _ in range(rng.randint(0, 3))]
+        if fv and rng.random() < 0.3: rhs = list(fv)
+        return "%s %s %d" % (head, FV(rhs), 1 if rng.random() < 0.5 else 0)
+    if op == "scale":
+        return "%s %s" % (head, Q(rng.randint(-6, 6)))
+    nb = len(fv)
+    if op == "scalew":
+        if nb == 0:
+            fv = rfv(rng, space, 1, 3); nb = len(fv)
+            head = "fv %s %s %s" % (op, L(space), FV(fv))
+        w = [Q(rng.randint(-6, 6)) for _ in range(nb)]
+        if rng.random() < 0.5: w.append(Q(nb * rng.randint(-6, 6)))
+        return "%s %s" % (head, LQ(w))
+    w = [Q(rng.randint(-6, 6)) for _ in range(nb + (1 if rng.random() < 0.5 else 0))]
+    return "%s %s" % (head, LQ(w))
+
+ALG_KINDS = ["bfop", "bfop", "subop", "fv", "fv", "fv", "fv", "fv", "fv"]
+
+# ---------------------------------------------------------------- DDN -------------------------
+def rdist(rng, n):
+    """a probability row with entries k/4"""
+    cuts = sorted(rng.randint(0, 4) for _ in range(n - 1))
+    parts = [b - a for a, b in zip([0] + cuts, cuts + [4])]
+    return [Q(k) for k in parts]
+
+def rparentset(rng, S, A):
+    agents = rkeys(rng, len(A))
+    feats = [rkeys(rng, len(S)) for _ in range(prod(A[k] for k in agents))]
+    return agents, feats
+
+def PS(ps): return "%s %d %s" % (L(ps[0]), len(ps[1]), " ".join(L(f) for f in ps[1]))
+
+def gen_ddn(rng, kind):
+    S = [rng.choice([1, 2, 2, 3]) for _ in range(rng.choice([1, 2, 2, 3]))]
+    A = [rng.choice([1, 2, 2, 3]) for _ in range(rng.choice([1, 2]))]
+    if kind == "ddnpush":
+        out = []
+        for _ in range(rng.randint(1, len(S) + 1)):
+            ag, fs = rparentset(rng, S, A)
+            r = rng.random()
+            if r < 0.1: ag = []
+            elif r < 0.2: ag = ag + [len(A)]
+            elif r < 0.3: fs = fs + [rkeys(rng, len(S))]
+            elif r < 0.4 and fs: fs = fs[:-1]
+            elif r < 0.5 and fs: fs[rng.randrange(len(fs))] = []
+            elif r < 0.6 and fs: fs[rng.randrange(len(fs))] = [len(S)]
+            elif r < 0.7 and fs: fs[rng.randrange(len(fs))] = [0, 0]
+            elif r < 0.75 and len(ag) > 1: ag = ag[::-1]
+            out.append((ag, fs))
+        return "ddnpush %s %s %d %s" % (L(S), L(A), len(out), " ".join(PS(p) for p in out))
+    pss = [rparentset(rng, S, A) for _ in S]
+    mats = []
+    for i, (ag, fs) in enumerate(pss):
+        rows = sum(prod(S[k] for k in f) for f in fs)
+        mats.append("%d %d %s" % (rows, S[i], " ".join(" ".join(rdist(rng, S[i])) for _ in range(rows))))
+    qs = []
+    for _ in range(2):
+        qs.append("%s %s" % (L([rng.randrange(x) for x in S]), L([rng.randrange(x) for x in A])))
+    tag = rkeys(rng, len(S))
+    basis = (tag, [str(rng.randint(-4, 4)) for _ in range(prod(S[k] for k in tag))])
+    return "ddn %s %s %s %s 2 %s %s" % (L(S), L(A), " ".join(PS(p) for p in pss), " ".join(mats), " ".join(qs), B(basis))
+
+
+CORE_KINDS = ["idx", "fac", "pidx", "pfac", "enum", "enum", "enumall", "enumskip", "enumskip", "enumskip",
+              "enumskipall", "ienum", "ienum", "ienumall", "merge", "merge", "match", "matchp", "rmf", "matchf",
+              "matchk", "chk", "chk", "kpf", "iskip"]
+
+def gen(rng, tier):
+    n = {"quick": 800, "thorough": 8000, "search": 3000}[tier]
+    out = []
+    while len(out) < n:
+        u = rng.random()
+        if u < 0.45:
+            c = gen_core(rng, rng.choice(CORE_KINDS))
+        elif u < 0.85:
+            c = gen_alg(rng, rng.choice(ALG_KINDS))
+        else:
+            c = gen_ddn(rng, rng.choice(["ddn", "ddn", "ddnpush"]))
+        if c is not None:
+            out.append(c)
     return out
